@@ -198,8 +198,10 @@ def setup(rec, tier):
 
 def _typed(rng, x):
     u = rng.random()
-    if u < 0.6:
+    if u < 0.5:
         return float(x)
+    if u < 0.6:
+        return np.array(float(x))      # a zero-dimensional array (a value picked out of an array): the shape then keeps an array
     if u < 0.8:
         return np.float64(x)
     if float(x).is_integer():
@@ -241,6 +243,14 @@ def run_case(i, rng, rec, tier, state):
         except Exception as e:  # a getter of a valid shape must not raise
             rec.violation(f"{which}.{m}", f"{which}.{m}/raises-{type(e).__name__}",
                           {"class": which, "axes": ax, "center": c, "exc": repr(e)})
+    # the integrals are those of the shape *as given*: a getter that reports the right number and quietly rewrites a radius or
+    # semi-axis (possible in place when the parameter is a 0-d array) makes every later report describe another shape
+    with contracts.quiet():
+        now = [float(s.radius)] if k == 1 else [float(getattr(s, nm_)) for nm_ in ("a", "b", "c")[:k]]
+        cnow = np.asarray(s.centroid, float)
+    rec.check("reads-leave-the-shape-as-given", now == [float(a) for a in ax] and bool(np.all(cnow == np.asarray(c, float))),
+              f"{which}/parameters-changed-by-reading-its-measures", lambda: {"class": which, "given": ax, "now": now, "center_given": c, "center_now": cnow,
+                                                                               "argument_types": [type(a).__name__ for a in args]})
     # history: the same object after a parameter or size assignment must still report the integrals of its *current*
     # parameters (hidden caches filled by the reads above must not survive an assignment)
     if (i // 4) % 2 == 0:
